@@ -1,9 +1,263 @@
 (* C09 Algebraic law checkers report exactly the laws that hold.
-   Only the property theorems; each closed by a lemma proved under Algebra/. *)
-From Coq Require Import List.
-From HV Require Import Algebra.Model Algebra.PBasic.
 
-Theorem C09_first_err_ok : forall (X : Type) (xs : list X) body,
-  first_err xs body = Ok <-> (forall x, In x xs -> body x = Ok).
-Proof. exact (@first_err_ok). Qed.
-Print Assumptions C09_first_err_ok.
+   Full statement: each law checker of lattices/src/algebra.rs returns success exactly when
+   its law holds on every tuple drawn from the given carrier, and the shipped semiring
+   applications satisfy the semiring laws they claim.
+
+   This file contains only the property theorems (each closed by a lemma proved under
+   Algebra/) and non-vacuity examples.  Carrier type `A`, its equality test `eqb` (Rust
+   PartialEq), the item list and all operations are universally quantified.  `x == y` below
+   means `eqb x y = true`; the `_eq` variants restate the law with Leibniz `=` for equality
+   tests that reflect it (u8, u32, bool, ...).
+
+   Recorded exceptions (the statement is FALSE of the code; `_refuted` theorems + replays):
+     * linearity: tests q(f a b) == g (q b) (q a)           (known_findings.d/C09.txt)
+     * ConfidenceScore: binary64 `*` is not associative
+   Not proved (correspondence check only): FuzzyLogic ([0,1], max, min) semiring laws over
+   all binary64 values in [0,1] -- needs the FloatAxioms order specification;
+   ConfidenceScore's remaining laws likewise. *)
+From Coq Require Import List Bool NArith Floats.
+From HV Require Import Algebra.Model Algebra.PBasic Algebra.PPower Algebra.PCheckers
+  Algebra.PSemiring Algebra.PMaster.
+Import ListNotations.
+
+(* ------------------------------------------------------------------ cartesian_power *)
+Theorem C09_cartesian_power_complete : forall (A : Type) (n : nat) (items tup : list A),
+  In tup (cartesian_power n items) <->
+  items <> [] /\ length tup = n /\ Forall (fun x => In x items) tup.
+Proof. exact (@cartesian_power_In). Qed.
+Print Assumptions C09_cartesian_power_complete.
+
+(* iterator order = first coordinate fastest; never panics, terminates, `len()` is exact
+   before every `next()`, and the iterator is fused *)
+Theorem C09_cartesian_power_run : forall (A : Type) (n : nat) (items : list A),
+  cartesian_power n items = cp_spec n items /\
+  exists fin,
+    cp_trace (cp_fuel n items) (cp_init n items)
+    = Some (cartesian_power n items, count_down (length (cartesian_power n items)), fin) /\
+    cp_next fin = CpDone /\ cp_size_hint fin = 0.
+Proof. exact (@cartesian_power_run_full). Qed.
+Print Assumptions C09_cartesian_power_run.
+
+Example C09_cartesian_power_ex :
+  cartesian_power 2 [1; 2; 3]%N =
+  [[1; 1]; [2; 1]; [3; 1]; [1; 2]; [2; 2]; [3; 2]; [1; 3]; [2; 3]; [3; 3]]%N.
+Proof. vm_compute. reflexivity. Qed.
+
+(* ------------------------------------------------------------------ base checkers *)
+Section Statements.
+  Context {A : Type} (eqb : A -> A -> bool).
+  Local Notation "x == y" := (eqb x y = true) (at level 70).
+
+  Theorem C09_associativity : forall items f,
+    associativity eqb items f = Ok <->
+    forall a b c, In a items -> In b items -> In c items -> f a (f b c) == f (f a b) c.
+  Proof. exact (associativity_ok eqb). Qed.
+
+  Theorem C09_commutativity : forall items f,
+    commutativity eqb items f = Ok <-> forall x y, In x items -> In y items -> f x y == f y x.
+  Proof. exact (commutativity_ok eqb). Qed.
+
+  Theorem C09_idempotency : forall items f,
+    idempotency eqb items f = Ok <-> forall x, In x items -> f x x == x.
+  Proof. exact (idempotency_ok eqb). Qed.
+
+  Theorem C09_identity : forall items f e,
+    identity eqb items f e = Ok <-> forall a, In a items -> f e a == a /\ f a e == a.
+  Proof. exact (identity_ok eqb). Qed.
+
+  Theorem C09_inverse : forall items f e b,
+    inverse eqb items f e b = Ok <-> forall a, In a items -> f a (b a) == e /\ f (b a) a == e.
+  Proof. exact (inverse_ok eqb). Qed.
+
+  Theorem C09_nonzero_inverse : forall items f e zero b,
+    nonzero_inverse eqb items f e zero b = Ok <->
+    forall a, In a items -> eqb a zero = false -> f a (b a) == e /\ f (b a) a == e.
+  Proof. exact (nonzero_inverse_ok eqb). Qed.
+
+  Theorem C09_absorbing_element : forall items f z,
+    absorbing_element eqb items f z = Ok <-> forall a, In a items -> f a z == z /\ f z a == z.
+  Proof. exact (absorbing_element_ok eqb). Qed.
+
+  Theorem C09_left_distributes : forall items f g,
+    left_distributes eqb items f g = Ok <->
+    forall a b c, In a items -> In b items -> In c items -> g a (f b c) == f (g a b) (g a c).
+  Proof. exact (left_distributes_ok eqb). Qed.
+
+  Theorem C09_right_distributes : forall items f g,
+    right_distributes eqb items f g = Ok <->
+    forall a b c, In a items -> In b items -> In c items -> g (f b c) a == f (g b a) (g c a).
+  Proof. exact (right_distributes_ok eqb). Qed.
+
+  Theorem C09_no_nonzero_zero_divisors : forall items f zero,
+    no_nonzero_zero_divisors eqb items f zero = Ok <->
+    forall a b, In a items -> In b items -> eqb a zero = false -> eqb b zero = false ->
+                eqb (f a b) zero = false.
+  Proof. exact (no_nonzero_zero_divisors_ok eqb). Qed.
+
+  (* ---------------------------------------------------------------- composites: conjunctions *)
+  Theorem C09_composites : forall items f g zero one b b2,
+    (distributive eqb items f g = Ok <-> LDist eqb items f g /\ RDist eqb items f g) /\
+    (semigroup eqb items f = Ok <-> Assoc eqb items f) /\
+    (monoid eqb items f zero = Ok <-> Assoc eqb items f /\ Identity eqb items f zero) /\
+    (commutative_monoid eqb items f zero = Ok <->
+       (Assoc eqb items f /\ Identity eqb items f zero) /\ Comm eqb items f) /\
+    (group eqb items f zero b = Ok <->
+       (Assoc eqb items f /\ Identity eqb items f zero) /\ Inverse eqb items f zero b) /\
+    (abelian_group eqb items f zero b = Ok <->
+       ((Assoc eqb items f /\ Identity eqb items f zero) /\ Inverse eqb items f zero b) /\
+       Comm eqb items f) /\
+    (semiring eqb items f g zero one = Ok <->
+       CMonoid eqb items f zero /\ Monoid eqb items g one /\ Absorbing eqb items g zero /\
+       Dist eqb items f g) /\
+    (ring eqb items f g zero one b = Ok <->
+       Semiring eqb items f g zero one /\ Inverse eqb items f zero b) /\
+    (commutative_ring eqb items f g zero one b = Ok <->
+       (Semiring eqb items f g zero one /\ Inverse eqb items f zero b) /\ Comm eqb items g) /\
+    (integral_domain eqb items f g zero one b = Ok <->
+       CRing eqb items f g zero one b /\ NoZeroDiv eqb items g zero) /\
+    (field eqb items f g zero one b b2 = Ok <->
+       CRing eqb items f g zero one b /\ NzInverse eqb items g one zero b2).
+  Proof. exact (composites_ok eqb). Qed.
+
+
+  Theorem C09_single_function_properties : forall items f e b z,
+    let l := get_single_function_properties eqb items f e b z in
+    (In PAssoc l <-> Assoc eqb items f) /\ (In PComm l <-> Comm eqb items f) /\
+    (In PIdem l <-> Idem eqb items f) /\ (In PIdentity l <-> Identity eqb items f e) /\
+    (In PInverse l <-> Inverse eqb items f e b) /\ (In PAbsorbing l <-> Absorbing eqb items f z) /\
+    ~ In POther l.
+  Proof. exact (single_function_properties_spec eqb). Qed.
+End Statements.
+Print Assumptions C09_associativity.
+Print Assumptions C09_commutativity.
+Print Assumptions C09_idempotency.
+Print Assumptions C09_identity.
+Print Assumptions C09_inverse.
+Print Assumptions C09_nonzero_inverse.
+Print Assumptions C09_absorbing_element.
+Print Assumptions C09_left_distributes.
+Print Assumptions C09_right_distributes.
+Print Assumptions C09_no_nonzero_zero_divisors.
+Print Assumptions C09_composites.
+Print Assumptions C09_single_function_properties.
+
+(* with an equality test that reflects `=` the laws read with Leibniz equality *)
+Theorem C09_associativity_eq : forall (A : Type) (eqb : A -> A -> bool),
+  (forall x y, eqb x y = true <-> x = y) ->
+  forall items f,
+    associativity eqb items f = Ok <->
+    forall a b c, In a items -> In b items -> In c items -> f a (f b c) = f (f a b) c.
+Proof. exact (@associativity_ok_eq). Qed.
+Print Assumptions C09_associativity_eq.
+
+Theorem C09_distributive_eq : forall (A : Type) (eqb : A -> A -> bool),
+  (forall x y, eqb x y = true <-> x = y) ->
+  forall items f g,
+    distributive eqb items f g = Ok <->
+    (forall a b c, In a items -> In b items -> In c items -> g a (f b c) = f (g a b) (g a c)) /\
+    (forall a b c, In a items -> In b items -> In c items -> g (f b c) a = f (g b a) (g c a)).
+Proof. exact (@distributive_ok_eq). Qed.
+Print Assumptions C09_distributive_eq.
+
+Example C09_checker_ok_ex : associativity N.eqb [0; 1; 2]%N N.max = Ok.
+Proof. vm_compute. reflexivity. Qed.
+Example C09_checker_err_ex : associativity N.eqb [0; 1; 2]%N N.sub = Err EAssoc.
+Proof. vm_compute. reflexivity. Qed.
+Example C09_field_ex :   (* GF(2) *)
+  field Bool.eqb [false; true] xorb andb false true (fun x => x) (fun _ => true) = Ok.
+Proof. vm_compute. reflexivity. Qed.
+
+(* ------------------------------------------------------------------ linearity, bilinearity *)
+(* what `linearity` decides: the anti-homomorphism law (arguments of g swapped) *)
+Theorem C09_linearity_tests_swapped_law : forall (S R : Type) (eqbR : R -> R -> bool) items
+    (f : S -> S -> S) (g : R -> R -> R) (q : S -> R),
+  linearity eqbR items f g q = Ok <->
+  forall a b, In a items -> In b items -> eqbR (q (f a b)) (g (q b) (q a)) = true.
+Proof. exact (@linearity_ok_swapped). Qed.
+Print Assumptions C09_linearity_tests_swapped_law.
+
+(* the property's statement for `linearity`, proved only where g commutes on the image of
+   the items; missing: non-commutative g, where the statement is false (next two theorems) *)
+Theorem C09_linearity_partial : forall (S R : Type) (eqbR : R -> R -> bool) items
+    (f : S -> S -> S) (g : R -> R -> R) (q : S -> R),
+  (forall a b, In a items -> In b items -> g (q a) (q b) = g (q b) (q a)) ->
+  (linearity eqbR items f g q = Ok <->
+   forall a b, In a items -> In b items -> eqbR (q (f a b)) (g (q a) (q b)) = true).
+Proof. exact (@linearity_ok_commutative). Qed.
+Print Assumptions C09_linearity_partial.
+
+Theorem C09_linearity_refuted :
+  exists (items : list N) f g q,
+    (forall a b, In a items -> In b items -> N.eqb (q (f a b)) (g (q a) (q b)) = true) /\
+    linearity N.eqb items f g q = Err ELinearity.
+Proof. exact linearity_rejects_linear. Qed.
+Print Assumptions C09_linearity_refuted.
+
+Theorem C09_linearity_accepts_nonlinear_refuted :
+  exists (items : list N) f g q,
+    ~ (forall a b, In a items -> In b items -> N.eqb (q (f a b)) (g (q a) (q b)) = true) /\
+    linearity N.eqb items f g q = Ok.
+Proof. exact linearity_accepts_nonlinear. Qed.
+Print Assumptions C09_linearity_accepts_nonlinear_refuted.
+
+Theorem C09_bilinearity : forall (S R T : Type) (eqbR : R -> R -> bool) items_f items_h
+    (f : S -> S -> S) (h : T -> T -> T) (g : R -> R -> R) (q : S -> T -> R),
+  bilinearity eqbR items_f items_h f h g q = Ok <->
+  (forall a b c, In a items_f -> In b items_f -> In c items_h ->
+                 eqbR (q (f a b) c) (g (q a c) (q b c)) = true) /\
+  (forall a c d, In a items_f -> In c items_h -> In d items_h ->
+                 eqbR (q a (h c d)) (g (q a c) (q a d)) = true).
+Proof. exact (@bilinearity_ok). Qed.
+Print Assumptions C09_bilinearity.
+
+(* ------------------------------------------------------------------ the executable form used
+   by the correspondence check is satisfied by the model on every in-scope case, and the
+   brute-force deciders inside it decide the Prop-level laws *)
+Theorem C09_model_satisfies_executable_form :
+  forall c, in_scope c -> C09_holds_b c (model_run c) = true.
+Proof. exact model_satisfies_C09. Qed.
+Print Assumptions C09_model_satisfies_executable_form.
+
+Theorem C09_deciders_decide_the_laws : forall (A : Type) (eqb : A -> A -> bool) items f g zero one b b2,
+  (assoc_b eqb items f = true <-> Assoc eqb items f) /\
+  (comm_b eqb items f = true <-> Comm eqb items f) /\
+  (idem_b eqb items f = true <-> Idem eqb items f) /\
+  (ident_b eqb items f zero = true <-> Identity eqb items f zero) /\
+  (inv_b eqb items f zero b = true <-> Inverse eqb items f zero b) /\
+  (nzinv_b eqb items g one zero b2 = true <-> NzInverse eqb items g one zero b2) /\
+  (absorb_b eqb items g zero = true <-> Absorbing eqb items g zero) /\
+  (dist_b eqb items f g = true <-> Dist eqb items f g) /\
+  (nzd_b eqb items g zero = true <-> NoZeroDiv eqb items g zero) /\
+  (semiring_b eqb items f g zero one = true <-> Semiring eqb items f g zero one) /\
+  (field_b eqb items f g zero one b b2 = true <-> Field eqb items f g zero one b b2).
+Proof. exact (@deciders_spec). Qed.
+Print Assumptions C09_deciders_decide_the_laws.
+
+(* ------------------------------------------------------------------ semiring applications.
+   SrLaw t (lhs, rhs): for all values a b c, if neither side panics (u32 overflow) the two
+   sides are equal; SrSemiring t: all eleven semiring laws of algebra.rs::semiring. *)
+Theorem C09_binary_trust_semiring : SrSemiring SBinaryTrust.
+Proof. exact binary_trust_semiring. Qed.
+Print Assumptions C09_binary_trust_semiring.
+
+Theorem C09_multiplicity_semiring : SrSemiring SMultiplicity.
+Proof. exact multiplicity_semiring. Qed.
+Print Assumptions C09_multiplicity_semiring.
+
+Theorem C09_cost_semiring : SrSemiring SCost.
+Proof. exact cost_semiring. Qed.
+Print Assumptions C09_cost_semiring.
+
+Example C09_semiring_ex :   (* the guarded laws are not vacuous: nothing overflows here *)
+  sr_eval SMultiplicity (VN 2) (VN 3) (VN 4) (XMul XA (XAdd XB XC)) = Some (VN 14) /\
+  sr_eval SCost (VN 2) VInf (VN 4) (XMul XA (XAdd XB XC)) = Some (VN 6).
+Proof. vm_compute. split; reflexivity. Qed.
+
+Theorem C09_confidence_mul_assoc_refuted :
+  exists a b c : float,
+    in01 a && in01 b && in01 c = true /\
+    PrimFloat.mul (PrimFloat.mul a b) c <> PrimFloat.mul a (PrimFloat.mul b c) /\
+    ~ SrLaw SConfidence (XMul (XMul XA XB) XC, XMul XA (XMul XB XC)).
+Proof. exact confidence_mul_refuted. Qed.
+Print Assumptions C09_confidence_mul_assoc_refuted.
